@@ -414,6 +414,36 @@ func (f *FCFG) loopsOver(isTarget func(ast.Expr) bool) []sliceLoop {
 // pruned only when its condition is decided against it.  CondOf supplies
 // `tag == case` for the cases of a tagged switch.
 func (f *FCFG) reachableUnder(atom func(e ast.Expr) int) map[*cfg.Block]bool {
+	eval := f.evaluatorUnder(atom)
+	out := map[*cfg.Block]bool{}
+	if len(f.G.Blocks) == 0 {
+		return out
+	}
+	work := []*cfg.Block{f.G.Blocks[0]}
+	for len(work) > 0 {
+		b := work[len(work)-1]
+		work = work[:len(work)-1]
+		if out[b] {
+			continue
+		}
+		out[b] = true
+		v := -1
+		if cond := f.CondOf(b); cond != nil {
+			v = eval(cond, 0)
+		}
+		for k, s := range b.Succs {
+			if len(b.Succs) == 2 && ((v == 1 && k == 1) || (v == 0 && k == 0)) {
+				continue
+			}
+			work = append(work, s)
+		}
+	}
+	return out
+}
+
+// evaluatorUnder: the three-valued evaluator of boolean expressions used by
+// reachableUnder (1 true, 0 false, -1 unknown).
+func (f *FCFG) evaluatorUnder(atom func(e ast.Expr) int) func(e ast.Expr, depth int) int {
 	var eval func(e ast.Expr, depth int) int
 	eval = func(e ast.Expr, depth int) int {
 		e = ast.Unparen(e)
@@ -453,33 +483,18 @@ func (f *FCFG) reachableUnder(atom func(e ast.Expr) int) map[*cfg.Block]bool {
 					return eval(d, depth+1)
 				}
 			}
+		case *ast.CallExpr:
+			if v := atom(e); v >= 0 {
+				return v
+			}
+			if d, ok := predInline[x]; ok && depth < 3 {
+				return eval(d, depth+1)
+			}
+			return -1
 		}
 		return atom(e)
 	}
-	out := map[*cfg.Block]bool{}
-	if len(f.G.Blocks) == 0 {
-		return out
-	}
-	work := []*cfg.Block{f.G.Blocks[0]}
-	for len(work) > 0 {
-		b := work[len(work)-1]
-		work = work[:len(work)-1]
-		if out[b] {
-			continue
-		}
-		out[b] = true
-		v := -1
-		if cond := f.CondOf(b); cond != nil {
-			v = eval(cond, 0)
-		}
-		for k, s := range b.Succs {
-			if len(b.Succs) == 2 && ((v == 1 && k == 1) || (v == 0 && k == 0)) {
-				continue
-			}
-			work = append(work, s)
-		}
-	}
-	return out
+	return eval
 }
 
 // boolLocalUse: use site of a boolean local -> the expression it abbreviates.
@@ -717,4 +732,239 @@ func elemShape(info *types.Info, body ast.Node, e ast.Expr) string {
 		}
 	}
 	return exprShape(info, e)
+}
+
+// predInline: call of a predicate helper -> the helper's condition, written over the call's
+// own operands.  `func (e *LEnv) hasEvalContext() bool { return e.evalCtx != nil }` makes
+// `if !env.hasEvalContext()` test what `if env.evalCtx == nil` tests: the helper's body is
+// one return of a boolean expression over its receiver and parameters, the operands at the
+// call are side-effect free, so the call reads as that expression.  The copy is typed (its
+// nodes are entered in the caller's types.Info while the index is built, before any rule
+// runs), so every classifier sees an ordinary condition.
+var predInline = map[*ast.CallExpr]ast.Expr{}
+
+func (c *Ctx) indexPredCalls() {
+	predInline = map[*ast.CallExpr]ast.Expr{}
+	// eligible helpers
+	type helper struct {
+		decl *ast.FuncDecl
+		info *types.Info
+		ret  ast.Expr
+		objs []types.Object // receiver (or nil) followed by parameters
+	}
+	helpers := map[*types.Func]*helper{}
+	for _, p := range c.Pkgs {
+		info := p.TypesInfo
+		for _, file := range p.Syntax {
+			for _, d := range file.Decls {
+				fd, ok := d.(*ast.FuncDecl)
+				if !ok || fd.Body == nil || len(fd.Body.List) != 1 || fd.Type.Results == nil || len(fd.Type.Results.List) != 1 {
+					continue
+				}
+				rs, ok := fd.Body.List[0].(*ast.ReturnStmt)
+				if !ok || len(rs.Results) != 1 {
+					continue
+				}
+				if bt, ok := info.TypeOf(rs.Results[0]).Underlying().(*types.Basic); !ok || bt.Info()&types.IsBoolean == 0 {
+					continue
+				}
+				if tv, ok := info.Types[rs.Results[0]]; ok && tv.Value != nil {
+					continue
+				}
+				fn, _ := info.Defs[fd.Name].(*types.Func)
+				if fn == nil {
+					continue
+				}
+				h := &helper{decl: fd, info: info, ret: rs.Results[0]}
+				var recv types.Object
+				if fd.Recv != nil && len(fd.Recv.List) == 1 && len(fd.Recv.List[0].Names) == 1 {
+					recv = info.Defs[fd.Recv.List[0].Names[0]]
+				}
+				h.objs = append(h.objs, recv)
+				okp := true
+				if fd.Type.Params != nil {
+					for _, f := range fd.Type.Params.List {
+						if len(f.Names) == 0 {
+							okp = false
+						}
+						for _, nm := range f.Names {
+							h.objs = append(h.objs, info.Defs[nm])
+						}
+					}
+				}
+				if sig, ok := fn.Type().(*types.Signature); ok && sig.Variadic() {
+					okp = false
+				}
+				if okp {
+					helpers[fn] = h
+				}
+			}
+		}
+	}
+	pure := func(info *types.Info, e ast.Expr) bool {
+		ok := true
+		ast.Inspect(e, func(n ast.Node) bool {
+			switch x := n.(type) {
+			case *ast.CallExpr:
+				// len/cap and conversions only
+				if tv, isT := info.Types[x.Fun]; isT && tv.IsType() {
+					return true
+				}
+				if id, isId := ast.Unparen(x.Fun).(*ast.Ident); isId {
+					if _, isB := info.Uses[id].(*types.Builtin); isB && (id.Name == "len" || id.Name == "cap") {
+						return true
+					}
+				}
+				ok = false
+			case *ast.FuncLit, *ast.CompositeLit:
+				ok = false
+			case *ast.UnaryExpr:
+				if x.Op == token.ARROW {
+					ok = false
+				}
+			}
+			return ok
+		})
+		return ok
+	}
+	var inline func(info *types.Info, ce *ast.CallExpr, depth int, at token.Pos) ast.Expr
+	inline = func(info *types.Info, ce *ast.CallExpr, depth int, at token.Pos) ast.Expr {
+		fn := originOf(Callee(info, ce))
+		h := helpers[fn]
+		if h == nil || depth > 3 {
+			return nil
+		}
+		bind := map[types.Object]ast.Expr{}
+		if h.objs[0] != nil {
+			se, ok := ast.Unparen(ce.Fun).(*ast.SelectorExpr)
+			if !ok || !pure(info, se.X) {
+				return nil
+			}
+			if sel := info.Selections[se]; sel == nil || sel.Kind() != types.MethodVal || len(sel.Index()) != 1 {
+				return nil // promoted through an embedded field: the receiver is not se.X itself
+			}
+			bind[h.objs[0]] = se.X
+		} else if len(h.objs) > 0 && h.decl.Recv != nil {
+			// unnamed receiver: nothing to bind
+		}
+		if len(ce.Args) != len(h.objs)-1 {
+			return nil
+		}
+		for i, a := range ce.Args {
+			if !pure(info, a) {
+				return nil
+			}
+			if h.objs[i+1] != nil {
+				bind[h.objs[i+1]] = a
+			}
+		}
+		failed := false
+		var cp func(e ast.Expr) ast.Expr
+		reg := func(old, nw ast.Expr) ast.Expr {
+			if tv, ok := h.info.Types[old]; ok {
+				info.Types[nw] = tv
+			}
+			return nw
+		}
+		cp = func(e ast.Expr) ast.Expr {
+			if e == nil || failed {
+				return nil
+			}
+			switch x := e.(type) {
+			case *ast.Ident:
+				if o := h.info.Uses[x]; o != nil {
+					if b, ok := bind[o]; ok {
+						return b
+					}
+					if v, isVar := o.(*types.Var); isVar && !v.IsField() && v.Pkg() != nil && v.Parent() != v.Pkg().Scope() {
+						failed = true // a local that is not a parameter
+						return nil
+					}
+					nw := &ast.Ident{NamePos: at, Name: x.Name}
+					info.Uses[nw] = o
+					return reg(x, nw)
+				}
+				nw := &ast.Ident{NamePos: at, Name: x.Name}
+				return reg(x, nw)
+			case *ast.BasicLit:
+				nw := &ast.BasicLit{ValuePos: at, Kind: x.Kind, Value: x.Value}
+				return reg(x, nw)
+			case *ast.ParenExpr:
+				return reg(x, &ast.ParenExpr{Lparen: at, X: cp(x.X), Rparen: at})
+			case *ast.UnaryExpr:
+				return reg(x, &ast.UnaryExpr{OpPos: at, Op: x.Op, X: cp(x.X)})
+			case *ast.StarExpr:
+				return reg(x, &ast.StarExpr{Star: at, X: cp(x.X)})
+			case *ast.BinaryExpr:
+				return reg(x, &ast.BinaryExpr{X: cp(x.X), OpPos: at, Op: x.Op, Y: cp(x.Y)})
+			case *ast.IndexExpr:
+				return reg(x, &ast.IndexExpr{X: cp(x.X), Lbrack: at, Index: cp(x.Index), Rbrack: at})
+			case *ast.SelectorExpr:
+				sel := &ast.Ident{NamePos: at, Name: x.Sel.Name}
+				if o := h.info.Uses[x.Sel]; o != nil {
+					info.Uses[sel] = o
+				}
+				var base ast.Expr
+				if _, isSel := h.info.Selections[x]; isSel {
+					base = cp(x.X)
+				} else {
+					// qualified identifier pkg.Name
+					id, ok := x.X.(*ast.Ident)
+					if !ok {
+						failed = true
+						return nil
+					}
+					nid := &ast.Ident{NamePos: at, Name: id.Name}
+					if o := h.info.Uses[id]; o != nil {
+						info.Uses[nid] = o
+					}
+					base = nid
+				}
+				nw := &ast.SelectorExpr{X: base, Sel: sel}
+				if s, ok := h.info.Selections[x]; ok {
+					info.Selections[nw] = s
+				}
+				return reg(x, nw)
+			case *ast.CallExpr:
+				nw := &ast.CallExpr{Fun: cp(x.Fun), Lparen: at, Rparen: at, Ellipsis: token.NoPos}
+				for _, a := range x.Args {
+					nw.Args = append(nw.Args, cp(a))
+				}
+				reg(x, nw)
+				if !failed {
+					if in := inline(info, nw, depth+1, at); in != nil {
+						predInline[nw] = in
+					}
+				}
+				return nw
+			}
+			failed = true
+			return nil
+		}
+		out := cp(h.ret)
+		if failed || out == nil {
+			return nil
+		}
+		return out
+	}
+	for _, p := range c.Pkgs {
+		info := p.TypesInfo
+		for _, file := range p.Syntax {
+			var calls []*ast.CallExpr
+			ast.Inspect(file, func(n ast.Node) bool {
+				if ce, ok := n.(*ast.CallExpr); ok {
+					calls = append(calls, ce)
+				}
+				return true
+			})
+			for _, ce := range calls {
+				if helpers[originOf(Callee(info, ce))] == nil {
+					continue
+				}
+				if in := inline(info, ce, 0, ce.Pos()); in != nil {
+					predInline[ce] = in
+				}
+			}
+		}
+	}
 }
